@@ -68,6 +68,51 @@ pub fn run(p: &[String]) -> Vec<String> {
             c.set_address(text.as_str());
             vec![hex(&text), hex(c.get_sheet_name()), hex(&c.get_range().get_range())]
         }
+        "chartable" => {
+            // ranges of Unicode scalars satisfying a std predicate (the model of that predicate is generated from this)
+            let f: fn(char) -> bool = match p[1].as_str() {
+                "616c7068616e756d65726963" => |c| c.is_alphanumeric(),
+                "616c7068616265746963" => |c| c.is_alphabetic(),
+                "6e756d65726963" => |c| c.is_numeric(),
+                "77686974657370616365" => |c| c.is_whitespace(),
+                "757070657263617365" => |c| c.is_uppercase(),
+                "6c6f77657263617365" => |c| c.is_lowercase(),
+                "636f6e74726f6c" => |c| c.is_control(),
+                _ => panic!("unknown predicate"),
+            };
+            let mut out = vec![];
+            let mut start: Option<u32> = None;
+            for cp in 0u32..=0x110000 {
+                let yes = char::from_u32(cp).map(f).unwrap_or(false);
+                match (yes, start) {
+                    (true, None) => start = Some(cp),
+                    (false, Some(s0)) => {
+                        out.push(format!("{}-{}", s0, cp - 1));
+                        start = None;
+                    }
+                    _ => {}
+                }
+            }
+            out
+        }
+        // ---- C07: a merged range on a real sheet, edited through the public API
+        "range_adjust" => {
+            let mut book = umya_spreadsheet::new_file();
+            let ws = book.get_sheet_by_name_mut("Sheet1").unwrap();
+            ws.add_merge_cells(unhex(&p[1]));
+            let (op, axis, pp, n) = (unhex(&p[2]), unhex(&p[3]), u(&p[4]), u(&p[5]));
+            match (op.as_str(), axis.as_str()) {
+                ("insert", "row") => ws.insert_new_row(&pp, &n),
+                ("insert", "col") => ws.insert_new_column_by_index(&pp, &n),
+                ("remove", "row") => ws.remove_row(&pp, &n),
+                ("remove", "col") => ws.remove_column_by_index(&pp, &n),
+                _ => panic!("bad op"),
+            }
+            match ws.get_merge_cells().first() {
+                Some(r) => vec!["kept".to_string(), hex(&r.get_range())],
+                None => vec!["removed".to_string()],
+            }
+        }
         // ---- C07 scalar
         "adj_insert" => vec![va::adjustment_insert_coordinate(&u(&p[1]), &u(&p[2]), &u(&p[3])).to_string()],
         "adj_remove" => vec![va::adjustment_remove_coordinate(&u(&p[1]), &u(&p[2]), &u(&p[3])).to_string()],
